@@ -52,11 +52,11 @@ def _hooks(xpaths):
         return xpaths[a[0].name]
 
     def h_iov(i, a, k, n):
-        aa = [x for x in a if not (isinstance(x, Obj) and x.name == "survey")]
+        aa = [x for x in a if not (isinstance(x, Obj) and (x.name == "survey" or (x.cls is not None and x.cls.name == "Survey")))]
         return (Sym("TEXT", truthy=True, pytype=str), False)
 
     def h_ix(i, a, k, n):
-        aa = [x for x in a if not (isinstance(x, Obj) and x.name == "survey")]
+        aa = [x for x in a if not (isinstance(x, Obj) and (x.name == "survey" or (x.cls is not None and x.cls.name == "Survey")))]
         v = aa[0] if aa else k.get("text")
         return v if isinstance(v, str) else Sym("SUBST", truthy=True, pytype=str, attrs={"src": v})
 
@@ -69,7 +69,11 @@ def _emitted(nodes) -> set[str]:
     def rec(n):
         if isinstance(n, NodeVal):
             for k, v in n.attrs.items():
-                s = v if isinstance(v, str) else (v.attrs.get("src") if isinstance(v, Sym) and isinstance(v.attrs.get("src"), str) else None)
+                s = v
+                if isinstance(s, Sym):
+                    s = s.attrs.get("src")
+                if isinstance(s, SymStr):
+                    s = s.text()
                 if isinstance(s, str):
                     m = ITEXT.match(s)
                     if m:
@@ -177,7 +181,7 @@ def run(ctx):
                necessary="a bind message redirected to itext without a registered id is dangling")
     MSG = {"absent": None, "text": "Plain", "text+ref": "Bad ${q0}", "dict": {"en": "M"}}
     se = repo.cls("pyxform.survey_element:SurveyElement")
-    for (cn, cv), (rn, rv), (nn, nv) in itertools.product(MSG.items(), MSG.items(), {k: v for k, v in MSG.items() if k != "text+ref"}.items()):
+    for (cn, cv), (rn, rv), (nn, nv) in itertools.product(MSG.items(), MSG.items(), MSG.items()):
         bind = {"type": "string"}
         if cv is not None:
             bind["jr:constraintMsg"] = cv
@@ -200,6 +204,11 @@ def run(ctx):
         ids, tr = registered(s, xp)
         r2b.check(em <= ids, f"bind[{desc}]", "every message itext id emitted on the bind is registered", "pyxform/survey_element.py",
                   why_fail=f"emitted {sorted(em)} registered {sorted(ids)}")
+        # non-vacuity: a translated message (per-language dict) can only be shown through itext, so it must emit a reference
+        n_dict = sum(1 for v in (cv, rv, nv) if isinstance(v, dict))
+        if n_dict:
+            r2b.check(len(em) >= n_dict, f"bind[{desc}]:translated messages use itext", "each per-language message is emitted as a jr:itext reference", "pyxform/survey_element.py",
+                      why_fail=f"emitted {sorted(em)}")
     rules.append(r2b)
 
     # ------------------------------------------------------------------ R3 padding
@@ -219,6 +228,43 @@ def run(ctx):
     r3.check(forms_ok, "_add_empty_translations:forms", "every id has the same forms in every language", pad.loc())
     r3.check(tr["fr"]["/d/q:hint"].get("guidance") == "-" and tr["es"]["l-0"].get("image") == "-" and tr["fr"]["/d/q:label"]["long"] == "y", "_add_empty_translations:placeholder",
              "missing entries are the '-' placeholder; existing entries are untouched", pad.loc())
+    # bounded-exhaustive: 2 languages x 2 text ids x 2 forms, every presence pattern (256 translation maps, including
+    # the "balanced sparse" ones where each language has the same number of values under different ids)
+    FORMS = ("long", "guidance")
+    IDS = ("/d/a:label", "/d/b:hint")
+    cells = [(l, i, f) for l in ("en", "fr") for i in IDS for f in FORMS]
+    n_maps = n_bad = 0
+    first_bad = None
+    for mask in range(1 << len(cells)):
+        trm = {"en": {}, "fr": {}}
+        for bit, (l, i, f) in enumerate(cells):
+            if mask >> bit & 1:
+                trm[l].setdefault(i, {})[f] = f"{l}:{i}:{f}"
+        before = {l: {i: dict(v) for i, v in d.items()} for l, d in trm.items()}
+        it.reset([])
+        sk = Obj(scls, {"_translations": trm}, name="survey")
+        try:
+            it.call_function(pad, [sk], {}, None, pad.node)
+        except Raised as e:
+            n_bad += 1
+            first_bad = first_bad or f"mask {mask:08b}: raises {e.exc_name}"
+            continue
+        n_maps += 1
+        all_ids = set(before["en"]) | set(before["fr"])
+        ok = set(trm["en"]) == set(trm["fr"]) == all_ids
+        for i in all_ids:
+            forms = set(before["en"].get(i, {})) | set(before["fr"].get(i, {}))
+            for l in ("en", "fr"):
+                got = trm[l].get(i, {})
+                ok = ok and {k for k in got if k in FORMS} == forms
+                for f in forms:
+                    want = before[l].get(i, {}).get(f, "-")
+                    ok = ok and got.get(f) == want
+        if not ok:
+            n_bad += 1
+            first_bad = first_bad or f"mask {mask:08b}: before {before} after {trm}"
+    r3.check(n_bad == 0 and n_maps == 1 << len(cells), "_add_empty_translations[all 256 presence patterns]",
+             "after padding both languages hold the same ids and forms; existing values untouched, missing ones are '-'", pad.loc(), why_fail=f"{n_bad} patterns fail, e.g. {first_bad}"[:300])
     xm = scls.methods["xml_model"]
     order = []
     mh = {"fnname:node": node_hook, "fnname:_setup_translations": lambda i, a, k, n: order.append("t"), "fnname:_setup_media": lambda i, a, k, n: order.append("m"),
@@ -237,7 +283,9 @@ def run(ctx):
               necessary="a duplicated language/id, or two defaults, makes the itext block ambiguous")
     itx = scls.methods["itext"]
     for dl, exp_default, l1, l2 in (("fr", ["fr"], "en", "fr"), ("default", [], "en", "fr"), ("en", ["en"], "en", "fr"),
-                                    ("fr", ["fr"], "default", "fr"), ("default", ["default"], "default", "fr"), ("", [], "en", "fr")):
+                                    ("fr", ["fr"], "default", "fr"), ("default", ["default"], "default", "fr"), ("", [], "en", "fr"),
+                                    # translation names differing only in case / spacing are different translations: one default at most
+                                    ("english", ["english"], "english", "English"), ("English (en)", ["English (en)"], "English(en)", "English (en)")):
         it = ctx.interp("C07.R4", hooks={"fnname:node": node_hook, "fnname:insert_output_values": lambda i, a, k, n: (([x for x in a if isinstance(x, str)] or ["?"])[0], False)})
         it.reset([])
         tr = {l1: {"/d/q:label": {"long": "x", "type": "question"}, "l-0": {"long": "A", "image": "a.png", "audio": "-"}},
